@@ -39,6 +39,8 @@ ALLOWED_AXIOMS = {
     'functional_extensionality_dep', 'FunctionalExtensionality.functional_extensionality_dep',
     'Eqdep.Eq_rect_eq.eq_rect_eq', 'eq_rect_eq', 'Classical_Prop.classic', 'classic',
     'proof_irrelevance', 'JMeq_eq', 'JMeq.JMeq_eq',
+    # real-number axioms of the standard library (pulled in by Flocq/Reals for the float facts of C09/C10)
+    'ClassicalDedekindReals.sig_not_dec', 'ClassicalDedekindReals.sig_forall_dec', 'sig_not_dec', 'sig_forall_dec',
 }
 FORBIDDEN_RE = re.compile(r'\b(Admitted|admit|Axiom|Parameter|Conjecture|Unset Guard Checking|bypass_check|type-in-type|Admit Obligations)\b')
 
